@@ -6,7 +6,7 @@
 (* of every distinct list once (the expectation table for the replay) and     *)
 (* checks the design-level theorems about the observers.                      *)
 EXTENDS MultiDict, Json
-CONSTANTS D, Mode, MaxLen
+CONSTANTS D, Mode, MaxLen, OpSubset
 
 K == {"a", "b"}
 V == {"x", "y"}
@@ -36,6 +36,16 @@ OpSet ==
          Op("update", "", "", 0, << <<"a","x">> >>, "map"),
          Op("update", "", "", 0, << <<"b","x">> >>, "kw") }
 
+(* a core subset for deeper histories *)
+CoreSet == { Op("append", "a", "x", 0, <<>>, ""), Op("append", "b", "y", 0, <<>>, ""), Op("append", "a", "y", 0, <<>>, ""),
+             Op("setitem", "a", "y", 0, <<>>, ""), Op("setitem", "b", "x", 0, <<>>, ""),
+             Op("delitem", "a", "", 0, <<>>, ""), Op("pop", "", "", 0, <<>>, ""), Op("popitem", "", "", 0, <<>>, ""),
+             Op("popkey", "a", "", 0, <<>>, ""), Op("popall_d", "b", "d", 0, <<>>, ""), Op("setdefault", "b", "y", 0, <<>>, ""),
+             Op("insert", "", "", -1, P1, "pairs"), Op("insert", "", "", 0, << <<"a", "x">> >>, "kv"), Op("insert", "", "", 1, P2, "pairs"),
+             Op("insert_before", "a", "", 0, << <<"b", "x">> >>, "pair"), Op("insert_after", "a", "", -1, << <<"b", "x">> >>, "pair"),
+             Op("extend", "", "", 0, << <<"b", "x">> >>, "map"), Op("update", "", "", 0, << <<"a", "y">>, <<"b", "y">> >>, "pairs"),
+             Op("discard", "b", "", 0, <<>>, ""), Op("clear", "", "", 0, <<>>, "") }
+Ops == IF OpSubset = "core" THEN CoreSet ELSE OpSet
 VARIABLES items, hist
 vars == <<items, hist>>
 
@@ -51,7 +61,7 @@ Do(o) == LET r == Apply(items, o) IN
 
 Next == /\ Mode # "table"
         /\ (Mode = "hist" => Len(hist) < D)
-        /\ \E o \in OpSet : Do(o)
+        /\ \E o \in Ops : Do(o)
 Spec == Init /\ [][Next]_vars
 
 Bound == Len(items) <= MaxLen
